@@ -37,6 +37,8 @@ func checkCiscoConv(p *Prog, r *Report, prop, flavour string) {
 	ruleMarkDiscipline(p, r, "R-M", prop, "cisco", []string{"cisco.State.subCmdOf"}, 5)
 	ruleMustCalls(p, r, "R-PH", prop)
 	ruleExitsAudited(p, r, "R-X", prop, pk, 16)
+	ruleRegexpConsts(p, r, "R-RX", prop, 1)
+	ruleIdentityFirst(p, r, "R-IDF", prop, 16)
 	ruleRewriteDiscipline(p, r, "R-FLAG", prop, map[string]bool{"cisco": true}, 20)
 	ruleStickyState(p, r, prop, pk, 9)
 	ruleFreshCounters(p, r, "R08.f", map[string]bool{"cisco": true}, 1)
